@@ -12,7 +12,7 @@ fn seg(seq: u32) -> Segment {
     Segment::new(TcpHeaderBuilder::new(1, 2, seq).build(a, a, [].into_iter(), 0).unwrap(), Message::default())
 }
 
-//# id=segment.order_is_circular_and_shift_invariant fns=Segment::cmp+partial_cmp+eq props=C12,C01 kind=complete pair=tcb.Segment.cmp.safety,tcb.Segment.partial_cmp.safety,tcb.Segment.eq.safety,tcb.lemma.lemma_seg_cmp_shift
+//# id=segment.order_is_circular_and_shift_invariant fns=Segment::cmp+partial_cmp+eq props=C12,C01,C02 kind=complete pair=tcb.Segment.cmp.safety,tcb.Segment.partial_cmp.safety,tcb.Segment.eq.safety,tcb.lemma.lemma_seg_cmp_shift
 #[cfg_attr(kani, kani::proof)]
 #[cfg_attr(vx_replay, test)]
 fn h_segment_order() {
